@@ -187,3 +187,14 @@ entry("C07", modules=["contracts.c07_circuit"],
                   "the gate list counts: the validator compares a gate counter; the list never shrinks), R4 copy / "
                   "constructor write the cache fields atomically, R5 cache keys cover the data dependences of the cached "
                   "value; failing obligations carry a native replay executed on the real classes.")
+
+
+entry("C14", modules=["contracts.c14_bp"],
+      E1=["quimb/tensor/belief_propagation/bp_common.py::combine_local_contractions"],
+      TRUSTED=["complex power by polar form: (phase*10^lg)^p = phase^p * 10^(p*lg) in an abelian phase group",
+               "autoray abs / log10 are the mathematical functions on non-zero values"],
+      ASSUMPTIONS=["convergence of message passing and tree-exactness are NOT within reach of any contract: they are "
+                   "decided by the bounded stand-in only; only the mantissa/exponent combiner is proved",
+                   "without check_zero every value is non-zero (log10 defined)"],
+      EXPLANATION="E1 (polar domain): combine_local_contractions returns (m0*10^e0*prod x_i^p_i)^power for all numbers "
+                  "of values, in both return forms, and returns zero iff check_zero and some value is zero.")
